@@ -3,7 +3,14 @@
 Streams: (1) find_all on Identity atoms: all non-nullable ASTs x all sequences (exhaustive to a
 bound) + random; (2) header shapes with real token predicates over a 6-symbol token alphabet.
 Oracle = direct statement of the property with reference semantics. Completeness failures that
-carry the pre-emption signature are the known finding KF1."""
+carry the pre-emption signature are the known finding KF1.
+
+(3) OBJECT streams (real code against the direct oracle, no model): find_all on Identity atoms with shared operator
+objects, repeated calls, alphabets of words / tuples, in-place edits of the expression list between calls, size
+ladders (obj_streams.py); header shapes [kw] Name G+ whose group predicate G nests Balanced inside Or / And / Not
+(reference: `gscan` runs G privately per attempt), each sequence once on new objects and once in a session on the same
+objects, the built-in shapes edited in place from one to the next between calls, ladders of nesting depth / groups /
+headers / simultaneously open headers."""
 import itertools
 import os
 import sys
@@ -13,6 +20,7 @@ sys.path.insert(0, os.path.join(os.path.dirname(os.path.dirname(os.path.dirname(
 import common
 import engine_real
 import patterns
+import obj_streams
 from gen import rx
 
 ID = "C14"
@@ -116,6 +124,99 @@ def cases_id(ctx):
     return out, "all non-nullable ASTs of size <= %d x all non-empty sequences of length <= %d over a,b,c,x (exhaustive) + random ASTs 3..9 with language-biased sequences" % (size, wl)
 
 
+def oracle_id_long(r, w, reply, cap=300):
+    """oracle_id for long sequences (position automaton; completeness only for positions whose greedy
+    attempt ends within `cap` items)"""
+    ms = parse_matches(reply)
+    if ms is None:
+        return [("error", reply)]
+    P = rx.PosRef(r)
+    bad = []
+    for (s, e, toks) in ms:
+        if not (0 <= s < e <= len(w)):
+            bad.append(("sound", "bounds %s" % ((s, e),)))
+            continue
+        if toks != w[s:e]:
+            bad.append(("sound", "recorded items differ from the spanned ones in %s" % ((s, e),)))
+        lf = P.longest_from(w, s)
+        if lf != e:
+            bad.append(("longest" if lf is not None and P.in_lang(w[s:e]) else "sound", "match %s, longest word from its start ends at %s" % ((s, e), lf)))
+    for a, b in zip(ms, ms[1:]):
+        if not a[1] <= b[0]:
+            bad.append(("order", "%s then %s" % (a[:2], b[:2])))
+    starts = sorted(ms)
+    import bisect
+    ends = [m[1] for m in starts]
+    for p in range(len(w)):
+        k = bisect.bisect_right(ends, p)       # first match with end > p
+        if k < len(starts) and starts[k][0] <= p:
+            continue
+        f, ok = P.greedy_finish(w[:p + cap], p)
+        if ok and f < p + cap:
+            pre = [(s, e) for (s, e, _) in starts[k:k + 50] if p < s and e < f]
+            bad.append(("complete", {"p": p, "finish": f, "preempted_by": pre}))
+    return bad[:20]
+
+
+def bad_of(op, r, w, reply):
+    return oracle_id_long(r, w, reply) if len(w) > 40 or rx.node_count(r) > 40 else oracle_id(r, w, reply)
+
+
+def identity_histories(ctx):
+    """find_all on pattern OBJECTS (see obj_streams): shared operator objects, repeated calls, alphabets of
+    words / tuples with bare operands, in-place edits of the expression list between calls, size ladders"""
+    rnd = ctx.rng("objects")
+    ok = lambda r: not rx.nullable(r)   # noqa: E731
+    ws = [w for w in rx.words((1, 2, 3), ctx.pick(3, 4)) if w]
+    hs = obj_streams.sessions([r for r in rx.up_to(ctx.pick(4, 5)) if ok(r)], ws, ("findall",), rnd)
+    hs += obj_streams.variants([r for r in rx.up_to(ctx.pick(3, 4)) if ok(r)], ws, ("findall",))
+    hs += obj_streams.edits(rnd, ctx.pick(500, 8000), ("findall",), accept_tree=ok, max_word=10)
+    hs += obj_streams.ladders(rnd, ("findall",), lengths=ctx.pick((100, 1000, 10000), (100, 1000, 10000, 100000)),
+                              widths=ctx.pick((10, 100, 1000), (10, 100, 1000, 10000)), depths=(10, 30, 100),
+                              accept_tree=ok, restart=True, segment=24, per_rung=ctx.pick(3, 6))
+    rule = ("OBJECT streams for find_all on Identity atoms (oracle: the property on the tree the list denotes at the moment of the call): sessions = all "
+            "non-nullable trees of size <= %d x all non-empty sequences of length <= %d over a,b,c with structurally equal operator sub-trees being one "
+            "Python object within and across the patterns of a process, calls repeated; variants = trees of size <= %d over the alphabets %s, operands "
+            "bare / as lists; edits = %d random histories on one list object edited in place between calls; ladders = sequence length %s, pattern "
+            "width %s, nesting 10, 30, 100" % (ctx.pick(4, 5), ctx.pick(3, 4), ctx.pick(3, 4), ", ".join(rx.ALPHABETS), ctx.pick(500, 8000),
+                                               ctx.pick("10^2..10^4", "10^2..10^5") + " (words of the language separated by a foreign item at most every 24 items: find_all keeps every attempt alive, so its time is quadratic in the length of a run)", ctx.pick("10..10^3", "10..10^4")))
+    return hs, rule
+
+
+def run_identity_histories(ctx):
+    hs, rule = identity_histories(ctx)
+    replies = engine_real.run_histories(hs)
+    dist, evals, nontrivial = {}, 0, set()
+    for h, rs in zip(hs, replies):
+        key = h["kind"] + ("/%s" % h["rung"] if "rung" in h else "")
+        n = sum(len(x) for x in rs)
+        dist[key] = dist.get(key, 0) + n
+        evals += n
+        for st, rr in zip(h["steps"], rs):
+            for (op, w), rep in zip(st["calls"], rr):
+                if not rep.startswith("ok 0") and not rep.startswith("err"):
+                    nontrivial.add((h["kind"], h["alphabet"], h["spelling"], str(st["ast"]) if len(str(st["ast"])) < 300 else id(st), tuple(w) if len(w) < 40 else len(w)))
+    fails, known = [], []
+    seen = set()
+    for (hi, i, j, rep, kind, detail) in obj_streams.judge(hs, replies, bad_of):
+        if is_kf1(kind, detail):
+            if len(known) < 3:
+                h = hs[hi]
+                known.append({"input": {"stream": "objects", "history": dict(h, steps=[dict(h["steps"][i], how="new", calls=[h["steps"][i]["calls"][j]])])},
+                              "observed": rep, "required": detail, "kind": kind})
+            continue
+        if (hi, i) in seen or len(fails) >= 12:
+            continue
+        seen.add((hi, i))
+        nk = lambda op, r, w, reply: [b for b in bad_of(op, r, w, reply) if not is_kf1(*b)]   # noqa: E731
+        small = obj_streams.shrink(hs[hi], i, j, nk) if len(fails) < 4 else None
+        h = small or dict(hs[hi], steps=hs[hi]["steps"][:i + 1])
+        fails.append({"input": {"stream": "objects", "history": h, "program": obj_streams.describe(h) if small else None},
+                      "observed": rep, "required": detail, "kind": kind})
+    fails.sort(key=lambda f: len(str(f["input"]["history"])))
+    return evals, nontrivial, dist, fails + known, rule
+
+
 # ------------------------------------------------------------------ stream 2: header shapes
 
 ALPHA = ["id", "kw", "(", ")", "{", "x"]
@@ -141,12 +242,13 @@ def mk_tokens(seq):
     # "s(" / "s)": the content token of a literal '(' / ")" - text of a parenthesis, class String: an ordinary
     # token for the header shapes (defect F25: it used to open / close a group)
     tt = {"id": (Name, "f"), "kw": (Keyword, "kw"), "(": (Punctuation, "("), ")": (Punctuation, ")"),
-          "{": (Punctuation, "{"), "x": (Literal, "x"), "s(": (Literal.String, "("), "s)": (Literal.String, ")")}
+          "{": (Punctuation, "{"), "x": (Literal, "x"), "s(": (Literal.String, "("), "s)": (Literal.String, ")"),
+          "[": (Punctuation, "["), "]": (Punctuation, "]")}
     return [Token(Location(1, i + 1), tt[a][0], tt[a][1]) for i, a in enumerate(seq)]
 
 
-KIND = {"id": 2, "kw": 1, "(": 3, ")": 3, "{": 3, "x": 0, "s(": 7, "s)": 7}
-VAL = {"id": "f", "kw": "kw", "(": "(", ")": ")", "{": "{", "x": "x", "s(": "(", "s)": ")"}
+KIND = {"id": 2, "kw": 1, "(": 3, ")": 3, "{": 3, "x": 0, "s(": 7, "s)": 7, "[": 3, "]": 3}
+VAL = {"id": "f", "kw": "kw", "(": "(", ")": ")", "{": "{", "x": "x", "s(": "(", "s)": ")", "[": "[", "]": "]"}
 
 
 def shape_scan(seq, p, opt_kw, req_kw):
@@ -276,6 +378,386 @@ def parse3(reply):
     return [(int(ws[2 + 3 * j]), int(ws[3 + 3 * j]), int(ws[4 + 3 * j])) for j in range(k)]
 
 
+# ------------------------------------------------------------------ stream 3: shapes as OBJECTS
+# Header shapes  [kw] Name G+  whose group predicate G is a tree of predicates (Balanced nested in
+# Or / And / Not included - the Lean model evaluates a nested Balanced as `false` and the translator
+# refuses it, so the oracle here is a direct Python reference: every attempt runs G from its
+# initial state, privately).  A shape history is a list of calls on ONE expression list object:
+#   {"shape": {"kw": "none"|"opt"|"req", "group": tree}, "how": "new"|"same"|<edit>, "tokens": [...]}
+# "same" calls again with the very same objects, an edit changes the list in place to another shape.
+
+def P_BAL(l="(", r=")"):
+    return ("bal", l, r)
+
+
+FIXED_GROUPS = [   # (group tree, the single bracket pair it balances or None)
+    (("not", ("not", P_BAL())), ("(", ")")),
+    (("or", P_BAL(), ("kwd", "kw")), ("(", ")")),
+    (("or", ("sym", "{"), P_BAL()), ("(", ")")),
+    (("and", P_BAL(), ("not", ("sym", "{"))), None),      # a '{' ends the group at any depth: no balance clause
+    (("and", ("not", ("sym", "{")), P_BAL()), None),
+    (("or", P_BAL("[", "]"), P_BAL()), None),
+    (("or", P_BAL(), P_BAL("[", "]")), None),
+]
+LEAVES = [P_BAL(), P_BAL("[", "]"), ("sym", "{"), ("kwd", "kw"), ("name",), ("val", "x")]
+
+
+def random_group(rnd, depth=2):
+    """a random predicate tree that contains a Balanced below a combinator"""
+    def gen(d):
+        if d == 0 or rnd.random() < 0.3:
+            return rnd.choice(LEAVES)
+        k = rnd.choice(("not", "or", "and", "or", "and"))
+        return (k, gen(d - 1)) if k == "not" else (k, gen(d - 1), gen(d - 1))
+    while True:
+        g = gen(depth)
+        if g[0] != "bal" and "bal" in str(g):
+            return g
+
+
+def real_pred(g):
+    from codelimit.common.token_matching.predicate.And import And
+    from codelimit.common.token_matching.predicate.Balanced import Balanced
+    from codelimit.common.token_matching.predicate.Keyword import Keyword
+    from codelimit.common.token_matching.predicate.Name import Name
+    from codelimit.common.token_matching.predicate.Not import Not
+    from codelimit.common.token_matching.predicate.Or import Or
+    from codelimit.common.token_matching.predicate.Symbol import Symbol
+    from codelimit.common.token_matching.predicate.TokenValue import TokenValue
+    t = g[0]
+    if t == "bal":
+        return Balanced(g[1], g[2])
+    if t == "sym":
+        return Symbol(g[1])
+    if t == "kwd":
+        return Keyword(g[1])
+    if t == "val":
+        return TokenValue(g[1])
+    if t == "name":
+        return Name()
+    if t == "not":
+        return Not(real_pred(g[1]))
+    return {"or": Or, "and": And}[t](real_pred(g[1]), real_pred(g[2]))
+
+
+def real_shape_expr(shape):
+    from codelimit.common.gsm.operator.OneOrMore import OneOrMore
+    from codelimit.common.gsm.operator.Optional import Optional
+    from codelimit.common.token_matching.predicate.Keyword import Keyword
+    from codelimit.common.token_matching.predicate.Name import Name
+    pre = {"none": [], "opt": [Optional(Keyword("kw"))], "req": [Keyword("kw")]}[shape["kw"]]
+    return pre + [Name(), OneOrMore(real_pred(_tup(shape["group"])))]
+
+
+def show_shape(shape):
+    def sp(g):
+        t = g[0]
+        if t == "bal":
+            return "Balanced(%r, %r)" % (g[1], g[2])
+        if t == "name":
+            return "Name()"
+        if t in ("sym", "kwd", "val"):
+            return "%s(%r)" % ({"sym": "Symbol", "kwd": "Keyword", "val": "TokenValue"}[t], g[1])
+        return "%s(%s)" % (t.capitalize(), ", ".join(sp(x) for x in g[1:]))
+    pre = {"none": "", "opt": "Optional(Keyword('kw')), ", "req": "Keyword('kw'), "}[shape["kw"]]
+    return "[%sName(), OneOrMore(%s)]" % (pre, sp(_tup(shape["group"])))
+
+
+def _tup(a):
+    return tuple(_tup(x) if isinstance(x, (list, tuple)) else x for x in a)
+
+
+def ref_accept(g, st, path, a):
+    """reference semantics of a predicate tree on the abstract token a; st: private depth per Balanced"""
+    t = g[0]
+    if t == "sym":
+        return KIND[a] == 3 and VAL[a] == g[1]
+    if t == "kwd":
+        return KIND[a] == 1 and VAL[a] == g[1]
+    if t == "val":
+        return VAL[a] == g[1]
+    if t == "name":
+        return KIND[a] == 2
+    if t == "not":
+        return not ref_accept(g[1], st, path + (0,), a)
+    if t == "or":
+        return ref_accept(g[1], st, path + (0,), a) or ref_accept(g[2], st, path + (1,), a)
+    if t == "and":
+        return ref_accept(g[1], st, path + (0,), a) and ref_accept(g[2], st, path + (1,), a)
+    d = st.get(path, 0)
+    if KIND[a] == 3 and VAL[a] == g[1]:
+        st[path] = d + 1
+        return True
+    if KIND[a] == 3 and VAL[a] == g[2]:
+        st[path] = d - 1
+        return d - 1 >= 0
+    return d > 0
+
+
+def gscan(shape, seq, p):
+    """reference scan of the shape from position p -> (finish, succeeded)"""
+    i, n = p, len(seq)
+    if shape["kw"] == "req":
+        if i < n and seq[i] == "kw":
+            i += 1
+        else:
+            return p, False
+    elif shape["kw"] == "opt" and i < n and seq[i] == "kw":
+        i += 1
+    if not (i < n and seq[i] == "id"):
+        return p, False
+    i += 1
+    first = i
+    st = {}
+    g = shape["group"]
+    while i < n and ref_accept(g, st, (), seq[i]):
+        i += 1
+    return i, i > first
+
+
+def oracle_gshape(shape, seq, ms):
+    import bisect
+    bad = []
+    n = len(seq)
+    pair = shape.get("pair")
+    for (s, e, k) in ms:
+        if not (0 <= s < e <= n) or k != e - s:
+            bad.append(("sound", "bounds/recorded %s" % ((s, e, k),))); continue
+        f, ok = gscan(shape, seq, s)
+        if not ok or f != e:
+            bad.append(("sound", "match %s; reference scan from %d finishes at %d (%s)" % ((s, e), s, f, ok)))
+        if pair and e < n:
+            depth = 0
+            for a in seq[s:e]:
+                if a == pair[0]:
+                    depth += 1
+                elif a == pair[1] and depth > 0:
+                    depth -= 1
+            if depth != 0:
+                bad.append(("balance", "match %s ends before the end of input at nesting %d" % ((s, e), depth)))
+    for a, b in zip(ms, ms[1:]):
+        if not a[1] <= b[0]:
+            bad.append(("order", "%s then %s" % (a[:2], b[:2])))
+    srt = sorted(ms)
+    ends = [m[1] for m in srt]
+    in_order = all(a[1] <= b[0] for a, b in zip(srt, srt[1:]))
+    for p in range(n):
+        if seq[p] not in ("id", "kw"):
+            continue
+        if in_order:
+            k = bisect.bisect_right(ends, p)
+            if k < len(srt) and srt[k][0] <= p:
+                continue
+        elif any(s <= p < e for (s, e, _) in ms):
+            continue
+        f, ok = gscan(shape, seq, p)
+        if ok:
+            later = srt[bisect.bisect_right(ends, p):][:64] if in_order else srt
+            pre = [(s, e) for (s, e, _) in later if p < s and e < f]
+            bad.append(("complete", {"p": p, "finish": f, "preempted_by": pre}))
+            if len(bad) > 50:
+                break
+    return bad
+
+
+def run_shape_history(h):
+    """-> one reply per step"""
+    from codelimit.common.gsm import matcher
+    E = None
+    out = []
+    for st in h["steps"]:
+        how = st.get("how", "new")
+        try:
+            if how == "new" or E is None:
+                E = real_shape_expr(st["shape"])
+            elif how != "same":
+                engine_real.edit_in_place(E, real_shape_expr(st["shape"]), how)
+            ps = matcher.find_all(E, mk_tokens(st["tokens"]))
+            out.append("ok %d" % len(ps) + "".join(" %d %d %d" % (p.start, p.end, len(p.tokens)) for p in ps))
+        except Exception as e:  # noqa
+            out.append("err %d" % engine_real.err_code(e))
+    return out
+
+
+def _work_sh(hs):
+    out = []
+    for h in hs:
+        rs = run_shape_history(h)
+        out.append((rs, judge_shape_history(h, rs)))
+    return out
+
+
+def judge_shape_history(h, rs):
+    """-> [(step, reply, kind, detail)]"""
+    out = []
+    for i, (st, rep) in enumerate(zip(h["steps"], rs)):
+        ms = parse3(rep)
+        if ms is None:
+            out.append((i, rep, "error", "no exception"))
+            continue
+        for kind, detail in oracle_gshape(st["shape"], st["tokens"], ms):
+            out.append((i, rep, kind, detail))
+    return out
+
+
+def is_kf1(kind, detail):
+    return kind == "complete" and isinstance(detail, dict) and bool(detail.get("preempted_by"))
+
+
+def shrink_shape_history(h, i):
+    """cut after step i and drop every earlier step that is not needed for step i to fail (KF1 aside)"""
+    def fails(c):
+        try:
+            rs = run_shape_history(c)
+        except Exception:  # noqa
+            return False
+        k = len(c["steps"]) - 1
+        return any(j == k and not is_kf1(kind, d) for (j, _, kind, d) in judge_shape_history(c, rs))
+    cur = dict(h, steps=list(h["steps"][:i + 1]))
+    if not fails(cur):
+        return None
+    alone = dict(cur, steps=[dict(cur["steps"][-1], how="new")])
+    if fails(alone):
+        return alone
+    # one earlier step is usually enough: try pairs before the greedy deletion
+    for k in range(len(cur["steps"]) - 2, -1, -1):
+        c = dict(cur, steps=[dict(cur["steps"][k], how="new"), cur["steps"][-1]])
+        if fails(c):
+            return c
+    k = 0
+    budget = 300
+    while k < len(cur["steps"]) - 1 and budget:
+        budget -= 1
+        c = dict(cur, steps=cur["steps"][:k] + cur["steps"][k + 1:])
+        if fails(c):
+            cur = c
+        else:
+            k += 1
+    return cur
+
+
+def describe_shape_history(h):
+    lines = []
+    for n, st in enumerate(h["steps"]):
+        how = st.get("how", "new")
+        if how == "new" or n == 0:
+            lines.append("E = %s" % show_shape(st["shape"]))
+        elif how != "same":
+            lines.append("edit E in place (%s) to %s" % (how, show_shape(st["shape"])))
+        lines.append("  find_all(E, tokens: %s )" % " ".join(st["tokens"]))
+    return lines
+
+
+def shape_histories(ctx):
+    rnd = ctx.rng("gshape")
+    hs = []
+    basic = [{"kw": k, "group": P_BAL(), "pair": ("(", ")")} for k in ("none", "opt", "req")]
+    fixed = [{"kw": "none", "group": g, "pair": pair} for (g, pair) in FIXED_GROUPS]
+    fixed.append({"kw": "opt", "group": FIXED_GROUPS[0][0], "pair": ("(", ")")})
+    rand = [{"kw": rnd.choice(("none", "none", "opt", "req")), "group": random_group(rnd), "pair": None} for _ in range(ctx.pick(6, 40))]
+
+    def alpha_of(shape):
+        txt = str(shape["group"])
+        a = ["id", "(", ")", "x"]
+        if "[" in txt:
+            a += ["[", "]"]
+        if "{" in txt:
+            a.append("{")
+        if "kwd" in txt or shape["kw"] != "none":
+            a.append("kw")
+        return a
+
+    def seqs_for(shape, ln, nrand):
+        a = alpha_of(shape)
+        out = [list(s) for n in range(1, ln + 1) for s in itertools.product(a, repeat=n)]
+        wide = a + ["(", ")", "id", "s(", "s)"]
+        for _ in range(nrand):
+            out.append([rnd.choice(wide) for _ in range(rnd.randint(ln + 1, 14))])
+        return out
+
+    CH = 150
+    # (a) nested group predicates: every sequence once with new objects, once more in a session on
+    #     the same objects (the second and later calls see whatever the earlier ones left behind)
+    for shape, ln in [(s, ctx.pick(5, 6)) for s in fixed] + [(s, ctx.pick(4, 5)) for s in rand]:
+        seqs = seqs_for(shape, ln if len(alpha_of(shape)) <= 5 else ln - 1, ctx.pick(400, 8000))
+        for i in range(0, len(seqs), CH):
+            part = seqs[i:i + CH]
+            hs.append({"kind": "nested/fresh", "steps": [{"shape": shape, "how": "new", "tokens": q} for q in part]})
+            hs.append({"kind": "nested/session", "steps": [{"shape": shape, "how": "same" if n else "new", "tokens": q} for n, q in enumerate(part)]})
+    # (b) the built-in shapes: session on the same objects, and in-place edits from one shape to the next
+    seqs = seqs_for({"kw": "opt", "group": P_BAL()}, ctx.pick(4, 5), ctx.pick(600, 8000))
+    for i in range(0, len(seqs), CH):
+        part = seqs[i:i + CH]
+        for b in basic:
+            hs.append({"kind": "basic/session", "steps": [{"shape": b, "how": "same" if n else "new", "tokens": q} for n, q in enumerate(part)]})
+        steps = []
+        for n, q in enumerate(part):
+            order = [basic[(n + k) % 3] for k in range(3)]
+            for b in order:
+                steps.append({"shape": b, "how": rnd.choice(engine_real.EDITS) if steps else "new", "tokens": q})
+        hs.append({"kind": "basic/edits", "steps": steps})
+    # (c) size ladders: nesting depth, groups per header, headers per sequence, headers alive at the same time
+    for k in ctx.pick((100, 1000, 10000), (100, 1000, 10000, 100000)):
+        lad = [["id"] + ["("] * k + ["x"] + [")"] * k + ["x", "id", "(", ")"],
+               ["id"] + ["("] * k + ["x"] + [")"] * (k - 1),
+               ["id"] + ["(", "x", ")"] * k + ["x"],
+               ["kw", "id", "(", "x", ")", "x"] * k]
+        if k <= 1000:
+            lad.append(["id", "("] * k + ["x"] + [")"] * k)
+        for q in lad:
+            for shape in basic[:2] + fixed[:1]:
+                hs.append({"kind": "ladder", "rung": k, "steps": [{"shape": shape, "how": "new", "tokens": q}, {"shape": shape, "how": "same", "tokens": q}]})
+    rule = ("OBJECT streams for header shapes [kw] Name G+ (direct reference oracle: each attempt runs G privately from its initial state): "
+            "G = Balanced nested in Or / And / Not (%d fixed + %d random predicate trees) x all token sequences up to length %d over the tokens G distinguishes "
+            "+ random up to 14, each once on new objects and once in a session of %d calls on the same objects; the three built-in shapes in sessions and "
+            "with in-place edits of the expression list from one shape to the next between calls; ladders: nesting depth / groups / headers / "
+            "simultaneously open headers %s" % (len(fixed), len(rand), ctx.pick(5, 6), CH, ctx.pick("10^2..10^4", "10^2..10^5")))
+    return hs, rule
+
+
+def run_shape_histories(ctx):
+    from concurrent.futures import ProcessPoolExecutor
+    hs, rule = shape_histories(ctx)
+    hs.sort(key=lambda h: -sum(len(s["tokens"]) for s in h["steps"]))    # long ones first
+    with ProcessPoolExecutor(max_workers=16) as ex:
+        nch = max(1, min(len(hs), 256))
+        chunks = [hs[i::nch] for i in range(nch)]
+        outs = list(ex.map(_work_sh, chunks))
+    replies = {}
+    for ch, out in zip(chunks, outs):
+        for h, rs in zip(ch, out):
+            replies[id(h)] = rs
+    dist, evals, nontrivial, fails, known = {}, 0, set(), [], []
+    cands = []
+    for h in hs:
+        rs, judged = replies[id(h)]
+        key = h["kind"] + ("/%s" % h["rung"] if "rung" in h else "")
+        dist[key] = dist.get(key, 0) + len(rs)
+        evals += len(rs)
+        for st, rep in zip(h["steps"], rs):
+            if not rep.startswith("ok 0") and not rep.startswith("err"):
+                nontrivial.add((str(st["shape"]), tuple(st["tokens"]) if len(st["tokens"]) < 40 else len(st["tokens"])))
+        seen_steps = set()
+        for (i, rep, kind, detail) in judged:
+            if is_kf1(kind, detail):
+                if len(known) < 3:
+                    known.append({"input": {"stream": "shape-history", "history": dict(h, steps=[dict(h["steps"][i], how="new")])},
+                                  "observed": rep, "required": detail, "kind": kind})
+                continue
+            if i in seen_steps or len(cands) >= 2000:
+                continue
+            seen_steps.add(i)
+            cands.append((len(h["steps"][i]["tokens"]), i, len(cands), h, rep, kind, detail))
+    cands.sort(key=lambda c: c[:3])
+    for n, (_, i, _, h, rep, kind, detail) in enumerate(cands[:40]):    # shortest failing sequences first
+        small = shrink_shape_history(h, i) if n < 8 else None
+        hh = small or dict(h, steps=h["steps"][:i + 1])
+        fails.append({"input": {"stream": "shape-history", "history": hh, "program": describe_shape_history(hh) if len(str(hh)) < 4000 else None},
+                      "observed": rep, "required": detail, "kind": kind})
+    fails.sort(key=lambda f: len(str(f["input"]["history"])))
+    return evals, nontrivial, dist, fails + known, rule
+
+
 # ------------------------------------------------------------------ check
 
 def correspond(ctx):
@@ -300,12 +782,16 @@ def correspond(ctx):
                 dist["completeness_preempted"] += 1
             fails.append({"input": inp, "observed": i, "required": detail, "kind": kind})
     ev2, nt2, dis2, fails2, samples2, rule2 = run_shapes(ctx)
+    ev3, nt3, dist3, fails3, rule3 = run_identity_histories(ctx)
+    ev4, nt4, dist4, fails4, rule4 = run_shape_histories(ctx)
+    dist["objects"] = dist3
+    dist["shape_objects"] = dist4
     # keep the list short: all non-known failures first
-    fails_all = fails + fails2
+    fails_all = fails3 + fails4 + fails + fails2
     fails_all.sort(key=lambda f: (f["kind"] == "complete" and bool(f["required"].get("preempted_by")) if isinstance(f["required"], dict) else False))
     return {
-        "evaluations": len(cs) + ev2, "distinct_nontrivial": len(nontrivial) + len(nt2),
-        "rule": rule1 + "; " + rule2 + "; non-trivial = distinct inputs on which the real find_all reports at least one match",
+        "evaluations": len(cs) + ev2 + ev3 + ev4, "distinct_nontrivial": len(nontrivial) + len(nt2) + len(nt3) + len(nt4),
+        "rule": rule1 + "; " + rule2 + "; non-trivial = distinct inputs on which the real find_all reports at least one match; " + rule3 + "; " + rule4,
         "samples": [{"pattern": rx.show(r), "sequence": w, "model": m, "impl": i} for (r, w), m, i in list(zip(cs, model, impl))[3000:3003]] + samples2,
         "exhaustive": True, "distribution": dist,
         "disagreements": (dis + dis2)[:50], "oracle_failures": fails_all[:400],
@@ -350,6 +836,22 @@ def tuple_ast(a):
 
 def replay(payload):
     inp = payload["input"]
+    if inp.get("stream") == "objects":
+        h = inp["history"]
+        print("\n".join(obj_streams.describe(h)))
+        rs = engine_real.run_history(h)
+        bad = [b for b in obj_streams.judge([h], [rs], bad_of) if not is_kf1(b[4], b[5])]
+        for (_, i, j, rep, kind, detail) in bad[:5]:
+            print("step %d call %d %s -> %s; %s: %s" % (i, j, h["steps"][i]["calls"][j], rep, kind, detail))
+        return not bad
+    if inp.get("stream") == "shape-history":
+        h = inp["history"]
+        print("\n".join(describe_shape_history(h)[:40]))
+        rs = run_shape_history(h)
+        bad = [b for b in judge_shape_history(h, rs) if not is_kf1(b[2], b[3])]
+        for (i, rep, kind, detail) in bad[:5]:
+            print("step %d -> %s; %s: %s" % (i, rep, kind, detail))
+        return not bad
     if inp.get("stream") == "shape":
         si = inp["shape_index"]
         i = real_shape((si, [inp["tokens"]]))[0]
